@@ -5,18 +5,23 @@ EXPORT_IMPORT_ONLY = {"quick": {"VERIF_FAIL_FILTER": "export-import"}, "thorough
 NO_EXPORT_IMPORT = {"quick": {"VERIF_FAIL_EXCLUDE": "export-import"}, "thorough": {"VERIF_FAIL_EXCLUDE": "export-import"}}
 PROPS = {
  "C12": {
-  "modules": ["OsmoVerif.Props.C12"],
-  "min_theorems": 38,
+  "modules": ["OsmoVerif.Props.C12", "OsmoVerif.Props.C12Str"],
+  "min_theorems": 62,
   "fingerprints": ["Osmomath.chop*", "Osmomath.incBasedOnRem*", "Osmomath.assertMaxBitLen", "Osmomath.BigDec_*", "Osmomath.NewBigDecFromStr"],
   "engines": [{"name": "num", "kind": "pure", "n": {"quick": 60000, "thorough": 600000}, "shards": {"quick": 4, "thorough": 16}}],
   "rule": "stratified operand pairs (magnitude class x sign x remainder/tie class) for every modelled BigDec/Dec method; "
           "a case is non-trivial when both operands are non-zero; distinct = distinct op lines",
-  "trusted_base": ["Go math/big (modelled by Int.tdiv/tmod)", "aliasing/mutation of operands is a heap fact: checked by the engine on the implementation, not by a theorem"],
-  "assumptions": ["string/JSON round-trip is decided by correspondence + oracle only (no Lean theorem over String); binary round-trip has a theorem",
+  "trusted_base": ["Go math/big (modelled by Int.tdiv/tmod)", "aliasing/mutation of operands is a heap fact: checked by the engine on the implementation, not by a theorem",
+                   "Lean core String runtime (legacy String.splitOn, String.foldl, Nat.repr) as specified by core/Batteries lemmas (Batteries.Data.String.Lemmas get/next/atEnd/extract_of_valid)"],
+  "assumptions": ["BigDec string round-trip is a theorem over the model's own String functions (Props/C12Str: fromStr (toStr a) = some a iff |a| < 2^maxBitLen, none otherwise = finding F2 for every wide value); "
+                  "JSON is the same text in quotes and is decided by correspondence + oracle only; binary round-trip has a theorem",
+                  "the model's fromStr covers the outputs of String() and their malformed neighbours (optional '-', digits, optional '.' + 1..36 digits), not the full NewBigDecFromStr grammar; "
+                  "LegacyDec.String/NewDecFromStr (18 decimals) are not modelled, so have no theorem (reference codec is proved for every precision p > 0)",
                   "LegacyDec lives in the module cache (cosmossdk.io/math, version pinned in Gen.Osmomath.sdkMathVersion)"],
-  "explanation": "40+ theorems: each BigDec/Dec arithmetic method of the model returns the uniquely determined value of its rounding spec "
+  "explanation": "60+ theorems: each BigDec/Dec arithmetic method of the model returns the uniquely determined value of its rounding spec "
                  "(IsTrunc/IsCeil/IsHalfEven) for all operands of either sign, overflow fails iff the rounded result exceeds the bit bound; "
-                 "model tied to the Go code by bit-exact differential run.",
+                 "text codec: exact round-trip bound for all values, shape/length/injectivity of String(), sign handling, accepted language of the decoder "
+                 "(fromStr_eq_some_iff) and rejection of every malformed neighbour shape; model tied to the Go code by bit-exact differential run.",
  },
  "C13": {
   "modules": ["OsmoVerif.Props.C13"],
